@@ -400,8 +400,9 @@ def kill_shim():
     root = scratch_root()
     if root in _SHIM:
         return _SHIM[root]
-    so = os.path.join(root, "killshim.so")
     src = os.path.join(os.path.dirname(os.path.abspath(__file__)), "killshim.c")
+    import hashlib
+    so = os.path.join(root, "killshim-%s.so" % hashlib.sha1(open(src, "rb").read()).hexdigest()[:10])
     ok = os.path.exists(so)
     if not ok:
         tmp = so + ".%d" % os.getpid()
@@ -433,7 +434,7 @@ db.close()
 """
 
 
-def run_child(kind, path, watch_dir, kill_at=0, log=None, script=None):
+def run_child(kind, path, watch_dir, kill_at=0, log=None, script=None, cwd=None):
     env = dict(os.environ, LD_PRELOAD=kill_shim(), MWSIM_KILL_DIR=watch_dir, MWSIM_KILL_AT=str(kill_at),
                PYTHONHASHSEED="0")
     if log:
@@ -441,7 +442,7 @@ def run_child(kind, path, watch_dir, kill_at=0, log=None, script=None):
     else:
         env.pop("MWSIM_KILL_LOG", None)
     r = subprocess.run([sys.executable, "-c", script or CHILD, os.path.join(seams.REPO, "src"), kind, path],
-                       env=env, capture_output=True, timeout=120)
+                       env=env, capture_output=True, timeout=120, cwd=cwd)
     return r.returncode, r.stderr.decode("utf-8", "replace")[-300:]
 
 
@@ -455,7 +456,7 @@ def syscall_kill_points(kind, make_dir, judge, threads=8, script=None):
     d, p = make_dir("rec")
     log = d + ".oplog"
     try:
-        rc, err = run_child(kind, p, d, 0, log, script=script)
+        rc, err = run_child(kind, p, d, 0, log, script=script, cwd=None if os.path.isabs(p) else d)
         if rc != 0:
             return 0, "child failed without fault: %s" % err
         ops = [l.split(" ", 2)[1] for l in open(log).read().splitlines() if l.strip()]
@@ -469,7 +470,7 @@ def syscall_kill_points(kind, make_dir, judge, threads=8, script=None):
         # in the calling thread, so that the verdict list is deterministic
         dd, pp = make_dir("k%d" % k)
         try:
-            rc, err = run_child(kind, pp, dd, k, script=script)
+            rc, err = run_child(kind, pp, dd, k, script=script, cwd=None if os.path.isabs(pp) else dd)
         except Exception as e:
             rc, err = -1, repr(e)
         return k, dd, rc, err
@@ -781,10 +782,14 @@ class C19Engine(DbEngine):
                 if viol:
                     break
         # 4. a real process killed before each of its file-system operations (per schema, once per batch)
-        if not viol and seed % 10 ** 6 in (0, 1):
+        if not viol and seed % 10 ** 6 in (0, 1, 2, 3):
+            bare = seed % 10 ** 6 in (2, 3)
+            extra["syscall_bare_relative_name"] = int(bare)
+
             def make_dir(tag):
+                # (seeds 2, 3: the server is started in the directory and given a bare file name)
                 dd = self.workdir("sys-" + tag)
-                return dd, os.path.join(dd, "db.sqlite")
+                return dd, ("db.sqlite" if bare else os.path.join(dd, "db.sqlite"))
 
             def judge(dd, label):
                 before = len(viol)
@@ -886,6 +891,44 @@ class C20Engine(DbEngine):
                     viol.append(self.v("backup-is-byte-identical",
                                        "%s: after starting again the backup is missing or is not the old file" % where))
                     break
+            # the same upgrade when the file is named differently (bare name in the working
+            # directory, ./name, a path through a symlinked directory)
+            if not viol:
+                spelling = ["bare", "dot", "symlink"][seed % 3]
+                extra["spelling_" + spelling] = 1
+                d2 = self.workdir("sp")
+                cwd = os.getcwd()
+                try:
+                    with open(os.path.join(d2, "usage.sqlite"), "wb") as f:
+                        f.write(old_bytes)
+                    if spelling == "symlink":
+                        os.symlink(d2, d2 + "-link")
+                        name = os.path.join(d2 + "-link", "usage.sqlite")
+                    else:
+                        os.chdir(d2)
+                        name = "usage.sqlite" if spelling == "bare" else "./usage.sqlite"
+                    where = "upgrade of a file given as %r" % (name if spelling != "symlink" else "<symlinked dir>/usage.sqlite")
+                    db = None
+                    try:
+                        db = database.create_or_upgrade_usage_db(name)
+                    except Exception as e:
+                        viol.append(self.v("upgrade-completes-however-the-file-is-named", "%s fails: %s: %s"
+                                           % (where, type(e).__name__, e)))
+                    finally:
+                        close_quiet(db)
+                    os.chdir(cwd)
+                    p2 = os.path.join(d2, "usage.sqlite")
+                    if not viol:
+                        if schema_dump(p2) != ref_schema or version_of(p2) != ref_version or full_dump(p2) != final_dump:
+                            viol.append(self.v("upgrade-completes-however-the-file-is-named",
+                                               "%s: result differs from the upgrade by absolute path" % where))
+                        elif not os.path.exists(p2 + "-backup-v1") or open(p2 + "-backup-v1", "rb").read() != old_bytes:
+                            viol.append(self.v("backup-is-byte-identical", "%s: backup missing or not the old file" % where))
+                finally:
+                    os.chdir(cwd)
+                    shutil.rmtree(d2, ignore_errors=True)
+                    if os.path.islink(d2 + "-link"):
+                        os.remove(d2 + "-link")
             # real process killed before each of its file-system operations (every 25th seed)
             if not viol and seed % 25 == 0:
                 seed_db = os.path.join(scratch_root(), "c20-seed-%d-%d.sqlite" % (os.getpid(), seed))
